@@ -15,7 +15,8 @@ CLAIM = ('Decides statically the structural conditions under which all configura
 LEVEL_NOTE = 'Trusted: clang AST, assembled object of the x86 runtime; semantics of emitted machine code; numeric equality of engines.'
 EXPLANATION = ('VM-DISPATCH, DS-COMPOSE, V2-GATES, DS-ASM-MP, FLAG-PROP, DRV-SEQ/SIB, SPEC-LOOP, AES-SWITCH/AES-ASM, RACE-RANGE, DS-INITSEL, A2-DISPATCH/A2-SKELETON, TAB-OPC/LW-SIB/MEM-JITMASK/IMM-ENC. BIND-EXCL, IMM-NEG x4, TAB-OPC / LW-SIB for the RVV generator, PORT-INT, DS-RANGE-EVAL.'
          ' X86-HSEM, A64-HSEM, RV-HSEM (scalar, vector), RVV-RCPPOOL.'
-         ' LW-VALUE (rvv), CFR-SIB / X86-CFR-BITS.')
+         ' LW-VALUE (rvv), CFR-SIB / X86-CFR-BITS.'
+         ' X86-MEM-HSEM, X86-FP-HSEM.')
 
 
 def run(ctx, R):
@@ -52,3 +53,5 @@ def run(ctx, R):
     x86hsem.rule_hsem(ctx, R)
     jit.rule_lw_value(ctx, R, 'rvv')
     jit.rule_cfr_x86(ctx, R, F)    # CFROUND: the x86 JIT and the interpreter apply the same rule (rotation, v2 test, control word)
+    x86hsem.rule_mem_hsem(ctx, R)
+    x86hsem.rule_fp_hsem(ctx, R)
